@@ -35,3 +35,182 @@ pub proof fn lemma_replay_blind(c: u32, ids: Set<u32>)
 {
     lemma_rt_alloc_fresh((c + 1) as u32, ids, None);
 }
+
+// ---- COMPOSITION harnesses (link pass 2): the RUNTIME half of the simulation's step function -------------------------------------
+// The simulation lemmas [C05.sim.*] of units/alloc_replay/lemmas.rs are statements about the spec-level transition functions `step` /
+// `ustep` on pairs (runtime allocator, replay allocator). That the runtime component of `step` IS what the real commands do was a
+// hypothesis there ("built from the SAME spec functions the code contracts use", clauses cited by label). Each harness below calls ONE
+// real extracted command and proves, from its [C05.rt.*] contract, that the pair (counter, taken ids) before / after the call is
+//   * exactly `step((a, b), cmd, carried).0` (for every replay state b and both journal disciplines) when the command is acknowledged,
+//   * and what a REFUSED command may leave behind — the model says "the state is left alone"; see the *.refused clauses for where the
+//     real code does less than that.
+// (vocabulary of units/alloc_replay/lemmas.rs used by the clauses, repeated word for word: Cmd, Alloc, acked, rt_assigned, journalled_id,
+//  rp_create, step, UCmd, max_of, ustep)
+pub enum Cmd {
+    Create(Option<u32>),     // create with client-chosen id Some(w) or server-assigned id None
+    Delete(u32),             // delete the entity the identifier resolves to
+    Restart,                 // stop, replay the journal, start: the runtime catalogue IS the replayed one, counter back at 1
+}
+pub struct Alloc { pub c: u32, pub ids: Set<u32> }
+pub open spec fn acked(a: Alloc, cmd: Cmd) -> bool {
+    match cmd {
+        Cmd::Create(req) => rt_alloc(a.c, a.ids, req).0 is Some,
+        Cmd::Delete(id) => a.ids.contains(id),
+        Cmd::Restart => true,
+    }
+}
+pub open spec fn rt_assigned(a: Alloc, req: Option<u32>) -> u32 { rt_alloc(a.c, a.ids, req).0->0 }
+pub open spec fn journalled_id(a: Alloc, req: Option<u32>, carried: bool) -> Option<u32> {
+    if carried { Some(rt_assigned(a, req)) } else { req }
+}
+pub open spec fn rp_create(b: Alloc, j: Option<u32>) -> Alloc {
+    Alloc { c: rp_alloc(b.c, j).1, ids: b.ids.insert(rp_alloc(b.c, j).0) }
+}
+pub open spec fn step(s: (Alloc, Alloc), cmd: Cmd, carried: bool) -> (Alloc, Alloc) {
+    let (a, b) = s;
+    if !acked(a, cmd) { s } else {
+        match cmd {
+            Cmd::Create(req) => (
+                Alloc { c: rt_alloc(a.c, a.ids, req).1, ids: a.ids.insert(rt_assigned(a, req)) },
+                rp_create(b, journalled_id(a, req, carried))),
+            Cmd::Delete(id) => (Alloc { c: rt_release(a.c, id), ids: a.ids.remove(id) }, Alloc { c: b.c, ids: b.ids.remove(id) }),
+            Cmd::Restart => (Alloc { c: 1, ids: b.ids }, b),
+        }
+    }
+}
+pub enum UCmd { Create, Delete(u32), Restart }
+pub open spec fn max_of(ids: Set<u32>) -> u32 { choose|m: u32| is_max_of(ids, m) }
+pub open spec fn ustep(s: (Alloc, Alloc), cmd: UCmd) -> (Alloc, Alloc) {
+    let (a, b) = s;
+    match cmd {
+        UCmd::Create => (Alloc { c: rt_user_alloc(a.c).1, ids: a.ids.insert(rt_user_alloc(a.c).0) }, rp_create(b, None)),
+        UCmd::Delete(id) => if a.ids.contains(id) && id != 1 { (Alloc { c: a.c, ids: a.ids.remove(id) }, Alloc { c: b.c, ids: b.ids.remove(id) }) } else { s },
+        // start-up: users are the replayed ones, USER_ID := highest id + 1
+        UCmd::Restart => (Alloc { c: (max_of(b.ids) + 1) as u32, ids: b.ids }, b),
+    }
+}
+// (this unit's reading of an allocator scope as an `Alloc`; equality of two of them with the id sets compared extensionally)
+pub open spec fn alloc_eq(x: Alloc, y: Alloc) -> bool { x.c == y.c && x.ids =~= y.ids }
+pub open spec fn rt_streams(s: &System, c: &Counter32) -> Alloc { Alloc { c: c.v, ids: stream_ids(s) } }
+pub open spec fn rt_topics(s: &Stream) -> Alloc { Alloc { c: s.current_topic_id.v, ids: topic_ids(s) } }
+pub open spec fn rt_groups(t: &Topic) -> Alloc { Alloc { c: t.current_consumer_group_id.v, ids: group_ids(t) } }
+pub open spec fn rt_users(s: &System, c: &Counter32) -> Alloc { Alloc { c: c.v, ids: user_ids(s) } }
+
+impl System {
+    // label: C05.link.alloc_replay.step.create_stream
+    pub fn sim_create_stream(&mut self, session: &Session, stream_id: Option<u32>, name: &Name, CURRENT_STREAM_ID: &mut Counter32) -> (r: Result<&Stream, IggyError>)
+        requires system_wf(old(self)),
+        ensures
+            r matches Ok(s) ==> acked(rt_streams(old(self), old(CURRENT_STREAM_ID)), Cmd::Create(stream_id))
+                && s.stream_id == rt_assigned(rt_streams(old(self), old(CURRENT_STREAM_ID)), stream_id)
+                && (forall|b: Alloc, carried: bool| alloc_eq((#[trigger] step((rt_streams(old(self), old(CURRENT_STREAM_ID)), b), Cmd::Create(stream_id), carried)).0,
+                        rt_streams(final(self), final(CURRENT_STREAM_ID)))),
+            // refused: the state is left alone — unless the scan ran out (every id from the counter up to u32::MAX is taken), where
+            // the counter has wrapped although nothing was created
+            r is Err ==> alloc_eq(rt_streams(final(self), final(CURRENT_STREAM_ID)), rt_streams(old(self), old(CURRENT_STREAM_ID)))
+                || (stream_id is None && !acked(rt_streams(old(self), old(CURRENT_STREAM_ID)), Cmd::Create(stream_id)) && stream_ids(final(self)) =~= stream_ids(old(self))),
+            system_wf(final(self)),
+    { self.create_stream(session, stream_id, name, CURRENT_STREAM_ID) }
+
+    // label: C05.link.alloc_replay.step.delete_stream
+    pub fn sim_delete_stream(&mut self, session: &Session, id: &Identifier, CURRENT_STREAM_ID: &mut Counter32) -> (r: Result<u32, IggyError>)
+        requires system_wf(old(self)),
+        ensures
+            r matches Ok(sid) ==> stream_of(old(self), id) == Some(sid) && acked(rt_streams(old(self), old(CURRENT_STREAM_ID)), Cmd::Delete(sid))
+                && (forall|b: Alloc, carried: bool| alloc_eq((#[trigger] step((rt_streams(old(self), old(CURRENT_STREAM_ID)), b), Cmd::Delete(sid), carried)).0,
+                        rt_streams(final(self), final(CURRENT_STREAM_ID)))),
+            r is Err ==> alloc_eq(rt_streams(final(self), final(CURRENT_STREAM_ID)), rt_streams(old(self), old(CURRENT_STREAM_ID))),
+            system_wf(final(self)),
+    { self.delete_stream(session, id, CURRENT_STREAM_ID) }
+}
+impl Stream {
+    // label: C05.link.alloc_replay.step.create_topic
+    pub fn sim_create_topic(&mut self, topic_id: Option<u32>, name: &Name, partitions_count: u32, message_expiry: IggyExpiry,
+        compression_algorithm: CompressionAlgorithm, max_topic_size: MaxTopicSize, replication_factor: u8) -> (r: Result<u32, IggyError>)
+        requires stream_wf(old(self)),
+        ensures
+            r matches Ok(id) ==> acked(rt_topics(old(self)), Cmd::Create(topic_id)) && id == rt_assigned(rt_topics(old(self)), topic_id)
+                && (forall|b: Alloc, carried: bool| alloc_eq((#[trigger] step((rt_topics(old(self)), b), Cmd::Create(topic_id), carried)).0, rt_topics(final(self)))),
+            // refused: the taken ids are left alone; the COUNTER is not — a create_topic(None, ..) refused after the scan (Topic::create or
+            // Topic::persist failing, streams/topics.rs:58-76) leaves it advanced ([C05.rt.topic.fail]). The model's "a refused command
+            // leaves the runtime state alone" does NOT hold for topics; harmless once the journal carries the id: [C05.sim.carried.any_counter]
+            r is Err ==> topic_ids(final(self)) =~= topic_ids(old(self))
+                && (final(self).current_topic_id.v == old(self).current_topic_id.v
+                    || (topic_id is None && final(self).current_topic_id.v == rt_alloc(old(self).current_topic_id.v, topic_ids(old(self)), topic_id).1)),
+            stream_wf(final(self)),
+    { self.create_topic(topic_id, name, partitions_count, message_expiry, compression_algorithm, max_topic_size, replication_factor) }
+
+    // label: C05.link.alloc_replay.step.delete_topic
+    pub fn sim_delete_topic(&mut self, id: &Identifier) -> (r: Result<Topic, IggyError>)
+        requires stream_wf(old(self)),
+        ensures
+            r matches Ok(t) ==> topic_of(old(self), id) == Some(t.topic_id) && acked(rt_topics(old(self)), Cmd::Delete(t.topic_id))
+                && (forall|b: Alloc, carried: bool| alloc_eq((#[trigger] step((rt_topics(old(self)), b), Cmd::Delete(t.topic_id), carried)).0, rt_topics(final(self)))),
+            r is Err ==> alloc_eq(rt_topics(final(self)), rt_topics(old(self))),
+            stream_wf(final(self)),
+    { self.delete_topic(id) }
+}
+impl Topic {
+    // label: C05.link.alloc_replay.step.create_consumer_group
+    pub fn sim_create_consumer_group(&mut self, group_id: Option<u32>, name: &Name) -> (r: Result<&ConsumerGroup, IggyError>)
+        requires topic_wf(old(self)),
+        ensures
+            r matches Ok(g) ==> acked(rt_groups(old(self)), Cmd::Create(group_id)) && g.group_id == rt_assigned(rt_groups(old(self)), group_id)
+                && (forall|b: Alloc, carried: bool| alloc_eq((#[trigger] step((rt_groups(old(self)), b), Cmd::Create(group_id), carried)).0, rt_groups(final(self)))),
+            // refused: as for streams (alone, unless the scan ran out)
+            r is Err ==> alloc_eq(rt_groups(final(self)), rt_groups(old(self)))
+                || (group_id is None && !acked(rt_groups(old(self)), Cmd::Create(group_id)) && group_ids(final(self)) =~= group_ids(old(self))),
+            topic_wf(final(self)),
+    { self.create_consumer_group(group_id, name) }
+
+    // label: C05.link.alloc_replay.step.delete_consumer_group
+    pub fn sim_delete_consumer_group(&mut self, id: &Identifier) -> (r: Result<ConsumerGroup, IggyError>)
+        requires topic_wf(old(self)), ident_valid(id),
+        ensures
+            r matches Ok(g) ==> group_of(old(self), id) == Some(g.group_id) && acked(rt_groups(old(self)), Cmd::Delete(g.group_id))
+                && (forall|b: Alloc, carried: bool| alloc_eq((#[trigger] step((rt_groups(old(self)), b), Cmd::Delete(g.group_id), carried)).0, rt_groups(final(self)))),
+            r is Err ==> alloc_eq(rt_groups(final(self)), rt_groups(old(self))),
+            topic_wf(final(self)),
+    { self.delete_consumer_group(id) }
+}
+impl System {
+    // users: `ustep` has no refused creates (USER_ID == 0, after 2^32 creations, is excluded: [C05.rt.user.fail])
+    // label: C05.link.alloc_replay.ustep.create_user
+    pub fn sim_create_user(&mut self, session: &Session, username: &Name, password: &Name, status: UserStatus, permissions: Option<Permissions>,
+        USER_ID: &mut Counter32) -> (r: Result<&User, IggyError>)
+        requires users_wf(old(self)),
+        ensures
+            r is Ok ==> (forall|b: Alloc| alloc_eq((#[trigger] ustep((rt_users(old(self), old(USER_ID)), b), UCmd::Create)).0, rt_users(final(self), final(USER_ID)))),
+            (r is Err && old(USER_ID).v != 0) ==> alloc_eq(rt_users(final(self), final(USER_ID)), rt_users(old(self), old(USER_ID))),
+            users_wf(final(self)),
+    { self.create_user(session, username, password, status, permissions, USER_ID) }
+
+    // delete_user has no access to USER_ID (it is not among its parameters): the counter component is the caller's unchanged cell `c`
+    // label: C05.link.alloc_replay.ustep.delete_user
+    pub fn sim_delete_user(&mut self, session: &Session, user_id: &Identifier, Ghost(c): Ghost<Counter32>) -> (r: Result<User, IggyError>)
+        requires users_wf(old(self)), cm_inv(&old(self).client_manager),
+        ensures
+            r matches Ok(u) ==> (forall|b: Alloc| alloc_eq((#[trigger] ustep((rt_users(old(self), &c), b), UCmd::Delete(u.id))).0, rt_users(final(self), &c)))
+                && user_ids(old(self)).contains(u.id) && u.id != 1,
+            r is Err ==> alloc_eq(rt_users(final(self), &c), rt_users(old(self), &c)),
+            users_wf(final(self)),
+    { self.delete_user(session, user_id) }
+
+    // start-up (`ustep` Restart, runtime component, given that the loaded users ARE the replayed ones: b.ids == user_ids): USER_ID := highest id + 1
+    // label: C05.link.alloc_replay.ustep.restart
+    pub fn sim_restart_users(&mut self, USER_ID: &mut Counter32)
+        requires forall|k: u32| old(self).users@.contains_key(k) ==> k < u32::MAX,
+            user_ids(old(self)).contains(1),      // the root user exists from the first boot on (u0)
+        ensures
+            forall|a: Alloc, b: Alloc| b.ids == user_ids(old(self)) ==> alloc_eq((#[trigger] ustep((a, b), UCmd::Restart)).0, rt_users(final(self), final(USER_ID))),
+            *final(self) == *old(self),
+    {
+        self.load_users_reseed(USER_ID);
+        proof {
+            let ids = user_ids(old(self));
+            let m = choose|m: u32| is_max_of(ids, m) && USER_ID.v == m + 1;
+            assert(is_max_of(ids, max_of(ids)));
+            assert(max_of(ids) == m);
+        }
+    }
+}
